@@ -230,14 +230,22 @@ class Earley:
         x = tuple(x)
         c = self._chart.get(x)
         if c is None:
-            self._chart[x] = c = self._compute_chart(x)
+            # Fill the cache for the missing prefixes of `x` from the shortest
+            # to the longest (no recursion on the prefix, so a cold cache can
+            # serve a long context).
+            n = len(x)
+            while n > 0 and x[: n - 1] not in self._chart:
+                n -= 1
+            for m in range(n, len(x) + 1):
+                p = x[:m]
+                self._chart[p] = c = self._compute_chart(p)
         return c
 
     def _compute_chart(self, x):
         if len(x) == 0:
             return [self._initial_column]
         else:
-            chart = self.chart(x[:-1])
+            chart = self._chart[x[:-1]]  # cached: `chart` fills prefixes in order
             last_chart = self.next_column(chart, x[-1])
             return chart + [
                 last_chart
